@@ -27,6 +27,7 @@ def env_of(cell):
     compatibility.update_fns(nt)
     walls = [(nt[f"m{f}"] ** 2) * (nt[f"k{f}Thr"] ** 2) if nt[f"k{f}Thr"] not in (0.0, float("inf")) else (0.0 if nt[f"k{f}Thr"] == 0.0 else float("inf")) for f in "cbt"]
     Q2 = float(fns.split("@")[1]) if "@" in fns else 30.0
+    fns = fns.split("%")[0]
     nf = 3 + sum(1 for w in walls if w <= Q2)
     return nf, nt["ZMc"], nt["ZMb"], nt["ZMt"], "FFN0" in fns, nt["FONLLParts"]
 
@@ -37,7 +38,7 @@ def corr_dispatch(chk, cells, outcomes):
     for cell, py in zip(cells, outcomes):
         kind, fl, pr, proj, fns, nfff, pto, tmc = cell
         nf, zmc, zmb, zmt, ffn0, parts = env_of(cell)
-        idxs = [drv.add(f"dispatch {k} {fl} {q(pr == 'CC')} {nf} {q(bool(zmc))} {q(bool(zmb))} {q(bool(zmt))} {q(ffn0)} {parts} {pto} {min(pto, 2)} {tmc}") for k in model_requests(cell)]
+        idxs = [drv.add(f"dispatch {k} {fl} {q(pr == 'CC')} {nf} {q(bool(zmc))} {q(bool(zmb))} {q(bool(zmt))} {q(ffn0)} {parts} {pto} {lattice.evol_order(cell)} {tmc}") for k in model_requests(cell)]
         pend.append((cell, py, idxs))
     lines = drv.run()
     for cell, py, idxs in pend:
@@ -65,7 +66,8 @@ def search_kinematics(chk, r):
     grid = [float(v) for v in np.geomspace(1e-2, 1.0, 8)]
     bad_points = [dict(x=0.0, Q2=10.0), dict(x=-0.1, Q2=10.0), dict(x=1.0000001, Q2=10.0), dict(x=1.05, Q2=2.0), dict(x=0.5, Q2=0.0), dict(x=0.5, Q2=-3.0), dict(x=0.005, Q2=10.0), dict(x=float(np.nextafter(1e-2, 0)), Q2=10.0)]
     good_points = [dict(x=1.0, Q2=10.0), dict(x=1e-2, Q2=10.0)]
-    paths = [("F2_total", 0, "NC"), ("F2_total", 1, "NC"), ("FL_light", 2, "NC"), ("F3_total", 3, "CC"), ("XSHERANC_total", 0, "NC"), ("XSHERACC_total", 1, "CC"), ("F1_light", 0, "NC"), ("g1_total", 1, "NC")]
+    paths = [("F2_total", 0, "NC"), ("F2_total", 1, "NC"), ("FL_light", 2, "NC"), ("F3_total", 3, "CC"), ("XSHERANC_total", 0, "NC"), ("XSHERACC_total", 1, "CC"), ("F1_light", 0, "NC"), ("g1_total", 1, "NC"),
+             ("XSFPFCC_total", 0, "CC"), ("XSCHORUSCC_total", 0, "CC"), ("XSNUTEVCC_light", 0, "CC"), ("XSNUTEVNU_total", 0, "CC"), ("FW_total", 0, "CC"), ("XSHERANCAVG_total", 0, "NC"), ("g5_total", 0, "NC")]
     for name, tmc, pr in paths:
         for pt in bad_points + good_points:
             kin = dict(pt)
@@ -103,6 +105,9 @@ def run(tier):
     search_full(chk, r.sample(cheap, min(len(cheap), 600 if thorough else 60)))
     n3 = [c for c in sample if c[6] == 3 and c[7] == 0 and c[4] in ("FFNS",) and c[0] in ("F2", "FL") and c[1] in ("charm", "total") and c[2] != "CC"]
     search_full(chk, r.sample(n3, min(len(n3), 12 if thorough else 2)))
+    # the same for observables assembled from several structure functions (the sanitiser must reach them too)
+    n3xs = [("XSHERANC", "charm", "NC", "electron", "FFNS", 3, 3, 0), ("F1", "charm", "NC", "electron", "FFNS", 3, 3, 0), ("XSHERANCAVG", "total", "NC", "positron", "FFNS", 3, 3, 0)]
+    search_full(chk, n3xs if thorough else n3xs[:1])
     search_kinematics(chk, r)
     chk.assumptions += [
         "no_internal_error is proved for every environment of the Combiner model (any nf, mass flags, weights, Q2) against class/module tables read from the live code each run; the model<->code tie is the dispatch_outcome correspondence (outcome class of the real code, without quadrature, on a sample / the whole lattice)",
